@@ -59,6 +59,7 @@ struct Op {
   bool dry_run = false;
   RunConfig cfg;             // faults, interrupts, edits during, env
   bool expect_error = false; // the invocation must fail with an error (C11 invalid dyndep files)
+  std::vector<std::string> canonical_args;  // C14: the same invocation with every path argument spelled canonically
   bool crash = false;        // additionally enumerate every crash point of every schedule of this invocation
   bool no_expand = false;    // successor worlds of this op are checked but not expanded further
 };
